@@ -61,6 +61,9 @@ func snapshotPhase1(res *scn.Result) {
 			res.SitesSwitch = append(res.SitesSwitch, i)
 		}
 	}
+	if zzsim.Rendezvous > 0 {
+		res.Probes["unbuffered_channel_rendezvous"] = zzsim.Rendezvous
+	}
 	res.Faults["forced_gc"] = zzsim.GCFired
 	if zzsim.FinalizersRun > 0 {
 		res.Faults["finalizers_run_as_simulated_task"] = zzsim.FinalizersRun
